@@ -5,6 +5,8 @@
 import ClarabelModel.Qdldl
 import ClarabelProofs.Lemmas.QdldlPerm
 import ClarabelProofs.Lemmas.QdldlPermSym
+import ClarabelProofs.Lemmas.QdldlSolve
+import ClarabelProofs.Lemmas.QdldlSolveCsc
 import ClarabelProofs.Lemmas.ScalarInst
 import Mathlib.Algebra.Order.Field.Basic
 
@@ -236,14 +238,17 @@ theorem permute_symmetric_position (A : Csc α) (iperm : Array Nat) (P : Csc α)
 example : permuteSymmetric (⟨3, 3, #[0, 1, 2, 5], #[0, 1, 0, 1, 2], #[4, 5, 1, 2, 6]⟩ : Csc Nat) #[2, 1, 0] =
     .ok (⟨3, 3, #[0, 1, 3, 5], #[0, 1, 0, 2, 0], #[6, 5, 2, 4, 1]⟩, #[3, 1, 4, 2, 0]) := by rfl
 
-/-- [S] FINDING (counterexample to the intended "column 0 of `triuA` starts with its diagonal
-entry", which `_factor_inner` relies on when it executes `D[0] = Ax[0]`): the input
-`[[1,2],[2,·]]` passes `check_structure` (upper triangular, no empty column), the ordering
-`[1,0]` is valid, and the permuted matrix has an *empty* first column — its first stored
-value `1` belongs to entry (1,1).  The factorisation then uses that value as first pivot
-(`Ok`, `D[0] = 1`, solution of `[[1,2],[2,1]]x = b`) instead of reporting the exact zero
-pivot of `ΠAΠ' = [[0,2],[2,1]]`.  Replays on the implementation
-(`replays/C12/finding-first-pivot-missing-diagonal.json`). -/
+/-- [S] Documents the **repaired** defect `C12-first-pivot-missing-diagonal` (fixed in /repo
+commit c474176; recorded as `fixed` in known_findings.json).  `_factor_inner` used to start
+with `D[0] = Ax[0]`, relying on "column 0 of `triuA` starts with its diagonal entry".  That
+is not established by `check_structure` + permutation: the input `[[1,2],[2,·]]` passes
+`check_structure` (upper triangular, no empty column), the ordering `[1,0]` is valid, and the
+permuted matrix has an *empty* first column — its first stored value `1` belongs to entry
+(1,1).  The old code used that value as first pivot (`Ok`, `D[0] = 1`, solution of
+`[[1,2],[2,1]]x = b`) instead of reporting the exact zero pivot of `ΠAΠ' = [[0,2],[2,1]]`.
+The repaired code (and `factorInner`) reads the pivot only if `Ap[0] < Ap[1]`; the harness
+submits this instance with `expect=zeropivot` on every run, so the old behaviour alarms
+(replay of the old failure: `replays/C12/finding-first-pivot-missing-diagonal.json`). -/
 theorem finding_first_column_can_be_empty :
     checkStructure (⟨2, 2, #[0, 1, 2], #[0, 0], #[1, 2]⟩ : Csc Nat) = .ok () ∧
     permuteSymmetric (⟨2, 2, #[0, 1, 2], #[0, 0], #[1, 2]⟩ : Csc Nat) #[1, 0] =
@@ -303,6 +308,21 @@ theorem pivot_step (rp : RegParams α) (k : Nat) (s : FState α) (dk : α) (sg :
     · simp only [hz, Bool.false_eq_true, ↓reduceIte]
       cases r2 <;> by_cases hp : (0 : α) < r1 <;> simp [hp]
 
+/-- [S] (holds at `Float`) **a (re)factorisation never reads the previous contents of `D`**: the
+result of `_factor_inner` depends on the incoming `D` buffer only through its length (the
+Rust code starts with `D.fill(0)`; the Schur-complement accumulation `D[k] -= y·l` of a column
+without structural diagonal entry therefore starts from `0`, not from the pivot of the last
+factorisation or the `1.0` left by a logical pass).  This is the part of "refactor ≡ fresh
+factorisation" that concerns `D`; together with `update_commutes` it is what the seeded
+change C12-a (`D.fill` removed) violates. -/
+theorem factor_ignores_stale_D (n : Nat) (Ap Ai : Array Nat) (Ax : Array α) (Li : Array Nat)
+    (Lx D D' Dinv : Array α) (Lnz : Array Nat) (etree : Array (Option Nat)) (logical : Bool)
+    (rp : RegParams α) (h : D.size = D'.size) :
+    factorInner n Ap Ai Ax Li Lx D Dinv Lnz etree logical rp =
+      factorInner n Ap Ai Ax Li Lx D' Dinv Lnz etree logical rp := by
+  unfold factorInner
+  rw [h]
+
 end pivot
 
 /-- [F] with the regulariser on, a positive threshold `ε`, a positive shift `δ` and signs `±1`,
@@ -334,6 +354,141 @@ theorem pivot_regularized_sign {α : Type} [Field α] [LinearOrder α] [IsStrict
 a raw pivot `0` with sign `-1` becomes `-δ`. -/
 example : (regularizePivot true (1/2 : ℝ) (1/4) (-1) 0).1 = -(1/4) := by
   simp [regularizePivot, signT, LawfulFloatLike.ofNat_eq]
+
+/-! ### `solve` (dense level) -/
+
+section solve
+open Matrix Clarabel.Qdldl.Dense
+
+/-- [F] **`solve` is correct, dense level.**  Let `L` be strictly lower triangular, `d` nowhere
+zero, and `(1+L)·diag d·(1+L)ᵀ = ΠAΠ'` (entry `(i,j)` of the product is `A (σ i) (σ j)`,
+`σ i = perm[i]`).  Then the composition performed by `QDLDLFactorisation::solve` —
+`permute` (`tmp i = b (σ i)`), forward substitution with `1+L` (`_lsolve`), multiplication
+by `Dinv = 1/d` and backward substitution with `(1+L)ᵀ` (`_dltsolve`), `ipermute`
+(`x (σ i) = t i`) — returns `x` with `A x = b`.
+(Dense statement: `fwdSubst/bwdSubst` are the row-recursive triangular solves; the same
+conclusion for the CSC loops of the model is `solve_correct_csc` below.) -/
+theorem solve_correct {n : ℕ} {α : Type} [Field α] (A L : Matrix (Fin n) (Fin n) α)
+    (d : Fin n → α) (σ : Equiv.Perm (Fin n)) (b : Fin n → α)
+    (hL : ∀ i j, i ≤ j → L i j = 0) (hd : ∀ i, d i ≠ 0)
+    (hPAP : ∀ i j, ((1 + L) * Matrix.diagonal d * (1 + L)ᵀ : Matrix (Fin n) (Fin n) α) i j = A (σ i) (σ j)) :
+    let tmp : Fin n → α := fun i => b (σ i)
+    let y := fwdSubst L tmp
+    let z : Fin n → α := fun i => y i * (1 / d i)
+    let t := bwdSubst L z
+    let x : Fin n → α := fun i => t (σ.symm i)
+    A *ᵥ x = b := by
+  intro tmp y z t x
+  exact solve_of_systems A L d σ b y t hd hPAP (fwdSubst_spec L hL tmp) (bwdSubst_spec L hL z)
+
+/-- [F] **`_solve` on the CSC arrays is correct** (bridge from the loops of the model to the
+dense statement).  Let `(Lp, Li, Lx)` describe an `n × n` strictly lower triangular matrix
+(`LowerCsc`: `Lp` monotone with `n+1` entries inside `Li/Lx`, every stored row index of column
+`c` in `c+1 … n-1`), `Lm` its dense meaning, `Dinv[i] = 1/d i` with `d i ≠ 0`, and
+`(1+Lm)·diag d·(1+Lm)ᵀ = ΠAΠ'`.  Then the model's `solveRaw` (`_lsolve` then `_dltsolve`,
+the column- and row-oriented in-place loops with their indexed reads and writes) run on the
+permuted right-hand side `tmp[i] = b (σ i)` does not fail, and un-permuting its result,
+`x (σ i) = t[i]`, gives `A x = b`. -/
+theorem solve_correct_csc {n : ℕ} {α : Type} [Field α] (Lp Li : Array Nat) (Lx Dinv : Array α)
+    (hcsc : LowerCsc n Lp Li Lx) (hDs : Dinv.size = n)
+    (d : Fin n → α) (hd : ∀ i, d i ≠ 0) (hDinv : ∀ i : Fin n, Dinv.getD i 0 = 1 / d i)
+    (A : Matrix (Fin n) (Fin n) α) (σ : Equiv.Perm (Fin n))
+    (hPAP : ∀ i j, ((1 + Matrix.of fun (i j : Fin n) => denseL Lp Li Lx i j) * Matrix.diagonal d *
+      (1 + Matrix.of fun (i j : Fin n) => denseL Lp Li Lx i j)ᵀ : Matrix (Fin n) (Fin n) α) i j = A (σ i) (σ j))
+    (b : Fin n → α) (tmp : Array α) (hts : tmp.size = n) (htmp : ∀ i : Fin n, tmp.getD i 0 = b (σ i)) :
+    ∃ t : Array α, solveRaw Lp Li Lx Dinv tmp = .ok t ∧ t.size = n ∧
+      A *ᵥ (fun r => t.getD (σ.symm r) 0) = b := by
+  obtain ⟨y, t, hrun, hys, hts', hy, ht⟩ := solveRaw_spec n Lp Li Lx Dinv hcsc hDs tmp hts
+  refine ⟨t, hrun, hts', ?_⟩
+  apply solve_of_systems A (Matrix.of fun (i j : Fin n) => denseL Lp Li Lx i j) d σ b
+    (fun i => y.getD i 0) (fun i => t.getD i 0) hd hPAP
+  · funext i
+    have := hy i i.isLt
+    rw [Finset.sum_range] at this
+    rw [Matrix.add_mulVec, Matrix.one_mulVec]
+    simp only [Pi.add_apply, Matrix.mulVec, dotProduct, Matrix.of_apply]
+    rw [this, htmp i]
+  · funext i
+    have := ht i i.isLt
+    rw [Finset.sum_range] at this
+    rw [Matrix.transpose_add, Matrix.transpose_one, Matrix.add_mulVec, Matrix.one_mulVec]
+    simp only [Pi.add_apply, Matrix.mulVec, dotProduct, Matrix.transpose_apply, Matrix.of_apply]
+    rw [this, hDinv i]
+
+/-- non-vacuity of `solve_correct_csc`: the arrays of `L = [[0,0],[3,0]]` satisfy `LowerCsc` -/
+example : LowerCsc 2 #[0, 1, 1] #[1] (#[3] : Array ℝ) := by
+  refine ⟨rfl, ?_, ?_, rfl, ?_⟩
+  · intro c hc
+    have : c = 0 ∨ c = 1 := by omega
+    rcases this with rfl | rfl <;> simp
+  · intro c hc
+    have : c = 0 ∨ c = 1 ∨ c = 2 := by omega
+    rcases this with rfl | rfl | rfl <;> simp
+  · intro c hc j hj
+    have : c = 0 ∨ c = 1 := by omega
+    rcases this with rfl | rfl
+    · simp [colIdx] at hj; subst hj; simp
+    · simp [colIdx] at hj
+
+/-- non-vacuity of `solve_correct`: a 2×2 instance, `L = [[0,0],[3,0]]`, `d = (1,1)`, identity
+ordering, `A` the product itself -/
+example : ∃ (A L : Matrix (Fin 2) (Fin 2) ℝ) (d : Fin 2 → ℝ),
+    (∀ i j, i ≤ j → L i j = 0) ∧ (∀ i, d i ≠ 0) ∧
+    (∀ i j, ((1 + L) * Matrix.diagonal d * (1 + L)ᵀ : Matrix (Fin 2) (Fin 2) ℝ) i j =
+      A ((Equiv.refl _) i) ((Equiv.refl _) j)) :=
+  ⟨(1 + Matrix.of fun i j => if j < i then 3 else 0) * Matrix.diagonal (fun _ => 1) *
+      (1 + Matrix.of fun i j => if j < i then 3 else 0)ᵀ,
+    Matrix.of fun i j => if j < i then 3 else 0, fun _ => 1,
+    by intro i j h; simp [not_lt.mpr h], by simp, fun _ _ => rfl⟩
+
+end solve
+
+/-! ### `_factor_inner` on the smallest patterns -/
+
+section factor
+variable {α : Type} [Field α] [DecidableEq α] [LT α] [DecidableLT α] [FloatLike α]
+
+/-- [F] `factor_correct_partial` (n = 2, dense pattern; regulariser off, nonzero pivots): the
+up-looking numeric factorisation `_factor_inner` returns `L, D` with `(I+L) D (I+L)ᵀ = A`
+(entrywise: `d₀ = a₀₀`, `l·d₀ = a₀₁`, `l·d₀·l + d₁ = a₁₁`) and `Dinv = 1/D` — whatever the
+previous contents of the `L / D / Dinv` buffers were (`k0, x0, g*, e*` are arbitrary). -/
+theorem factor_correct_partial_2x2 (a00 a01 a11 : α) (k0 : Nat) (x0 g0 g1 e0 e1 eps delta : α)
+    (h0 : a00 ≠ 0) (h1 : a11 - a01 * (a01 * a00⁻¹) ≠ 0) :
+    ∃ s l d0 d1, factorInner 2 #[0, 1, 3] #[0, 0, 1] #[a00, a01, a11] #[k0] #[x0] #[g0, g1] #[e0, e1]
+        #[1, 0] #[some 1, none] false { Dsigns := #[1, 1], enable := false, eps := eps, delta := delta } = .ok s ∧
+      s.Lp = #[0, 1, 1] ∧ s.Li = #[1] ∧ s.Lx = #[l] ∧ s.D = #[d0, d1] ∧ s.Dinv = #[d0⁻¹, d1⁻¹] ∧
+      d0 = a00 ∧ l * d0 = a01 ∧ l * d0 * l + d1 = a11 := by
+  have hrep : Array.replicate 2 (0 : α) = #[0, 0] := rfl
+  simp [factorInner, factorRow, rowPattern, rowEliminate, elimPath, finishPivot, getE, setE, cumsum,
+    bind, Except.bind, pure, Except.pure, List.range', h0, h1, hrep]
+
+/-- [F] `factor_correct_partial` (n = 3, the smallest pattern with fill-in:
+`A = [[a,b,c],[b,d,·],[c,·,e]]`, elimination tree `0 → 1 → 2`, `L₂₁` is fill): `_factor_inner`
+returns `L, D` with `(I+L) D (I+L)ᵀ = A` entrywise — in particular the fill entry satisfies
+`l₂₀·d₀·l₁₀ + l₂₁·d₁ = 0` — and `Dinv = 1/D`, whatever the previous buffer contents. -/
+theorem factor_correct_partial_3x3_fill (a b c d e : α) (k0 k1 k2 : Nat)
+    (x0 x1 x2 g0 g1 g2 e0 e1 e2 eps delta : α)
+    (h0 : a ≠ 0) (h1 : d - b * (b * a⁻¹) ≠ 0)
+    (h2 : e - c * (c * a⁻¹) - b * a⁻¹ * c * (b * a⁻¹ * c * (d - b * (b * a⁻¹))⁻¹) ≠ 0) :
+    ∃ s l10 l20 l21 d0 d1 d2,
+      factorInner 3 #[0, 1, 3, 5] #[0, 0, 1, 0, 2] #[a, b, d, c, e] #[k0, k1, k2] #[x0, x1, x2]
+        #[g0, g1, g2] #[e0, e1, e2] #[2, 1, 0] #[some 1, some 2, none] false
+        { Dsigns := #[1, 1, 1], enable := false, eps := eps, delta := delta } = .ok s ∧
+      s.Lp = #[0, 2, 3, 3] ∧ s.Li = #[1, 2, 2] ∧ s.Lx = #[l10, l20, l21] ∧ s.D = #[d0, d1, d2] ∧
+      s.Dinv = #[d0⁻¹, d1⁻¹, d2⁻¹] ∧
+      d0 = a ∧ l10 * d0 = b ∧ l20 * d0 = c ∧ l10 * d0 * l10 + d1 = d ∧
+      l20 * d0 * l10 + l21 * d1 = 0 ∧ l20 * d0 * l20 + l21 * d1 * l21 + d2 = e := by
+  have hrep : Array.replicate 3 (0 : α) = #[0, 0, 0] := rfl
+  simp [factorInner, factorRow, rowPattern, rowEliminate, elimPath, finishPivot, getE, setE, cumsum,
+    bind, Except.bind, pure, Except.pure, List.range', h0, h1, h2, hrep]
+  ring
+
+/-- non-vacuity: the pivot hypotheses of both partial theorems hold for the identity matrix -/
+example : (1 : ℝ) ≠ 0 ∧ (1 : ℝ) - 0 * (0 * (1 : ℝ)⁻¹) ≠ 0 ∧
+    (1 : ℝ) - 0 * (0 * (1 : ℝ)⁻¹) - 0 * (1 : ℝ)⁻¹ * 0 * (0 * (1 : ℝ)⁻¹ * 0 * ((1 : ℝ) - 0 * (0 * (1 : ℝ)⁻¹))⁻¹) ≠ 0 := by
+  norm_num
+
+end factor
 
 /-- non-vacuity of `pivot_step`: its hypotheses hold for a one-pivot state over `ℝ`-like
 scalars (here `ℝ`), and the conclusion is the regularised pivot `δ·sign = -1/4`. -/
